@@ -336,11 +336,26 @@ class Ctx:
 
 
 def load_known(prop):
-    path = os.path.join(VERIF, "known_findings.json")
+    """known_findings.json plus per-property fragments known_findings.d/<ID>.json
+    (same layout; fragments exist so that concurrent editors do not collide)."""
+    paths = [os.path.join(VERIF, "known_findings.json")]
+    frag = os.path.join(VERIF, "known_findings.d", prop + ".json")
+    if os.path.exists(frag):
+        paths.append(frag)
     out = {}
-    if os.path.exists(path):
-        with open(path) as f:
-            data = json.load(f)
+    for path in paths:
+        if not os.path.exists(path):
+            continue
+        data = None
+        for attempt in range(6):
+            try:
+                with open(path) as f:
+                    data = json.load(f)
+                break
+            except ValueError:
+                time.sleep(0.3)  # somebody is in the middle of writing it
+        if data is None:
+            raise HarnessError("cannot parse %s" % path)
         for ent in data.get("findings", []):
             if ent.get("property") == prop:
                 out[ent["key"]] = ent
